@@ -1026,6 +1026,8 @@ package vm
 
 //@ func StateDB.GetNonce
 //@   option trusted interface
+//@   # EIP-2681: account nonces stay below 2^64-1
+//@   ensures [eip2681!assumed] Z(result) < 18446744073709551615
 //@   modifies nothing
 
 //@ func StateDB.GetCodeHash
@@ -1173,6 +1175,39 @@ package vm
 //@   ensures [gas]     leftOverGas <= gas
 //@   ensures [failgas] err != nil && err != ErrExecutionReverted && err != ErrDepth && err != ErrInsufficientBalance ==> leftOverGas == 0
 //@   ensures [revert]  err != nil ==> ghost(stver) == old(ghost(stver))
+
+//@ spec abstract fn isSubChain() bool
+//@ func ext_isSub
+//@   option trusted extern=com.tuntun.rangers/node/src/common.IsSub
+//@   ensures result == isSubChain()
+//@   modifies nothing
+
+// Contract creation (C12): every failure after the snapshot was taken - an error of the constructor, and a
+// constructor that returns more code than allowed - puts the state back to the snapshot (the nonce bump and
+// the access-list entry made before the snapshot survive by design). snapver[i] is the state version recorded
+// by snapshot i; the snapshot taken by create is the next one at entry.
+//@ func EVM.create
+//@   property C12
+//@   option intmode=math
+//@   requires ref(caller) != 0 && evm != nil && value != nil && typeid(caller) != 0 && typeid(evm.StateDB) != 0 && codeAndHash != nil && evm.BlockNumber != nil && logger != nil
+//@   # configuration covered: the main chain (the sub-chain creation whitelist in front is not under contract)
+//@   requires [mainchain!init] !isSubChain()
+//@   requires [nonneg] big(value) >= 0
+//@   requires [wf]     forall a common.Address :: balOf(a) >= 0
+//@   ensures [reverted] result4 != nil && result4 != ErrCodeStoreOutOfGas && result4 != errSubChainNoCreate && result4 != ErrDepth && result4 != ErrInsufficientBalance && result4 != ErrContractAddressCollision ==> ghost(stver) == @select(ghost(snapver), old(ghost(snapnext)))
+
+// The EIP-3074 sponsored call: the value is debited from the SPONSOR, so it is the sponsor's balance that must
+// cover it - the same conservation clauses as EVM.Call (the nonce bump before the snapshot is deliberate and
+// survives a failing frame, so no [revert] clause here).
+//@ func EVM.AuthCall
+//@   property C06 C11
+//@   option intmode=math
+//@   requires ref(caller) != 0 && evm != nil && value != nil && typeid(caller) != 0 && typeid(evm.StateDB) != 0
+//@   requires [nonneg] big(value) >= 0
+//@   requires [wf]     forall a common.Address :: balOf(a) >= 0
+//@   ensures [supply]  ghost(supply) <= old(ghost(supply))
+//@   ensures [wfkept]  forall a common.Address :: balOf(a) >= 0
+//@   ensures [gas]     leftOverGas <= gas
 
 //@ func EVM.CallCode
 //@   property C12 C11
@@ -1373,6 +1408,20 @@ package vm
 //@   ensures [unstake]    instructionSet[UNSTAKE] != nil && (@needswrite(instructionSet[UNSTAKE].execute) ==> instructionSet[UNSTAKE].writes)
 //@   ensures [unstakeall] instructionSet[UNSTAKEALL] != nil && (@needswrite(instructionSet[UNSTAKEALL].execute) ==> instructionSet[UNSTAKEALL].writes)
 //@   ensures [readers]    instructionSet[GETSTAKE] != nil && instructionSet[STAKENUM] != nil && instructionSet[PRINTF] != nil && instructionSet[AUTH] != nil && instructionSet[AUTHCALL] != nil
+
+// Stack bounds of the Cancun-era entries (C11): an entry that pops p and pushes q items admits a stack of at
+// least p and at most 1024 + p - q items, so that the stack never exceeds 1024 after it ran (BASEFEE,
+// BLOBBASEFEE, PUSH0 push one; BLOBHASH, TLOAD replace the top; TSTORE pops two; MCOPY pops three).
+//@ func doProposal022
+//@   property C11
+//@   requires jt != nil
+//@   ensures [basefee]     jt[BASEFEE] != nil && jt[BASEFEE].minStack == 0 && jt[BASEFEE].maxStack == 1023
+//@   ensures [blobhash]    jt[BLOBHASH] != nil && jt[BLOBHASH].minStack == 1 && jt[BLOBHASH].maxStack == 1024
+//@   ensures [blobbasefee] jt[BLOBBASEFEE] != nil && jt[BLOBBASEFEE].minStack == 0 && jt[BLOBBASEFEE].maxStack == 1023
+//@   ensures [tload]       jt[TLOAD] != nil && jt[TLOAD].minStack == 1 && jt[TLOAD].maxStack == 1024
+//@   ensures [tstore]      jt[TSTORE] != nil && jt[TSTORE].minStack == 2 && jt[TSTORE].maxStack == 1026
+//@   ensures [mcopy]       jt[MCOPY] != nil && jt[MCOPY].minStack == 3 && jt[MCOPY].maxStack == 1027
+//@   ensures [push0]       jt[PUSH0] != nil && jt[PUSH0].minStack == 0 && jt[PUSH0].maxStack == 1023
 
 // The base table: the standard state-writing entries are flagged.
 //@ func newInstructionSet
